@@ -600,8 +600,13 @@ def do_check(pid, tier, seed):
                         k += 1
                         o.write(json.dumps({"ev": "ep", "id": k, "drv": "BATCH"}) + "\n")
                         o.write(json.dumps({"ev": "new", "slot": 1, "cols": b["init"][0], "rows": b["init"][1], "lim": b["init"][2]}) + "\n")
+                        o.write(json.dumps({"ev": "new", "slot": 2, "cols": b["init"][0], "rows": b["init"][1], "lim": b["init"][2]}) + "\n")
                         o.write(json.dumps({"ev": "fs", "slot": 1, "s": ops[0]["s"], "consumed": True}) + "\n")
                         o.write(json.dumps({"ev": "fs", "slot": 1, "s": [c for op in ops[1:] for c in op["s"]], "consumed": True}) + "\n")
+                        # ... and call by call in a second terminal: the two must agree (C12), whatever the specification says
+                        for op in ops:
+                            o.write(json.dumps({"ev": "fs", "slot": 2, "s": op["s"], "consumed": True}) + "\n")
+                        o.write('{"ev":"rel","name":"ChunkEq","slots":[1,2,2]}\n')
                 if o:
                     o.close()
                 model_runs[-1]["batched_calls_checked"] = k
